@@ -265,7 +265,56 @@ def bounded_fresh_process_containers(tier, seed):
             "backend": "bounded", "bound": f"{len(shapes)} container shapes x (field of a mapped dataclass, top-level)", "evaluations": n, "distinct_nontrivial": n, "exhaustive": False, "failures": failures}
 
 
-BOUNDED = [bounded_round_trips, bounded_serializer_cycles, bounded_fresh_process_containers]
+class Shade(str, enum.Enum):
+    NONE = ""
+    DARK = "dark"
+
+
+class Rank(int, enum.Enum):
+    ZERO = 0
+    ONE = 1
+
+
+def bounded_leaf_position_grid(tier, seed):
+    """every supported leaf type in every container position, with a typical and a falsy / empty wire value: decode-encode returns the wire value,
+    encode-decode returns an equal instance (an empty string, zero, False or empty bytes is a VALUE, not an absent one)"""
+    from pyopenapi_gen.core.cattrs_converter import structure_from_dict, unstructure_to_dict
+    leaves = [("str", str, ["x y", ""]), ("int", int, [7, 0]), ("float", float, [1.5, 0.0]), ("bool", bool, [True, False]),
+              ("datetime", dt.datetime, ["2024-01-02T03:04:05+00:00"]), ("date", dt.date, ["2024-01-02"]), ("bytes", bytes, ["aGk=", ""]),
+              ("str-enum", Shade, ["dark", ""]), ("int-enum", Rank, [1, 0]), ("plain-enum", Color, ["red"]), ("uuid", uuid.UUID, ["12345678-1234-5678-1234-567812345678"])]
+    positions = [("plain", lambda T: T, lambda v: v), ("optional", lambda T: Optional[T], lambda v: v), ("list", lambda T: List[T], lambda v: [v, v]),
+                 ("map", lambda T: Dict[str, T], lambda v: {"k": v}), ("optional-list", lambda T: Optional[List[T]], lambda v: [v]),
+                 ("list-of-optional", lambda T: List[Optional[T]], lambda v: [v, None]), ("map-of-list", lambda T: Dict[str, List[T]], lambda v: {"k": [v]})]
+    n, failures = 0, []
+    for (lname, T, values), (pname, mk_t, mk_v) in itertools.product(leaves, positions):
+        ann = mk_t(T)
+        Inner = dataclasses.make_dataclass("Inner", [("v", ann)])
+        Outer = dataclasses.make_dataclass("Outer", [("inner", Inner), ("maybe", Optional[Inner], None)])
+        for wire in values:
+            for cls, doc in ((Inner, {"v": mk_v(wire)}), (Outer, {"inner": {"v": mk_v(wire)}, "maybe": {"v": mk_v(wire)}})):
+                n += 1
+                kind = "falsy" if wire in ("", 0, 0.0, False) and not (wire is True) else "typical"
+                try:
+                    inst = structure_from_dict(doc, cls)
+                    back = json.loads(json.dumps(unstructure_to_dict(inst)))
+                    if back != doc:
+                        failures.append({"id": f"bounded:grid:decode-encode:{lname}:{pname}:{kind}", "detail": f"{doc} -> {back}", "input": {"leaf": lname, "position": pname, "document": doc}})
+                        continue
+                    again = structure_from_dict(back, cls)
+                    if again != inst:
+                        failures.append({"id": f"bounded:grid:encode-decode:{lname}:{pname}:{kind}", "detail": f"{inst!r} -> {again!r}", "input": {"leaf": lname, "position": pname, "document": doc}})
+                except Exception as e:  # noqa
+                    failures.append({"id": f"bounded:grid:error:{lname}:{pname}:{kind}", "detail": f"{doc}: {type(e).__name__}: {str(e)[:200]}", "input": {"leaf": lname, "position": pname, "document": doc}})
+    seen, uniq = set(), []
+    for f in failures:
+        if f["id"] not in seen:
+            seen.add(f["id"])
+            uniq.append(f)
+    return {"function": "structure_from_dict / unstructure_to_dict over the grid leaf type x container position x (typical, falsy) value, flat and nested", "backend": "bounded",
+            "bound": f"{len(leaves)} leaf types x {len(positions)} positions x up to 2 values x 2 nestings", "evaluations": n, "distinct_nontrivial": n, "exhaustive": False, "failures": uniq}
+
+
+BOUNDED = [bounded_round_trips, bounded_serializer_cycles, bounded_fresh_process_containers, bounded_leaf_position_grid]
 
 
 def _w(idprefix):
